@@ -1399,6 +1399,7 @@ static int cfg_parse_internal(cfg_t *cfg, int level, int force_state, cfg_opt_t 
 	cfg_opt_t funcopt = CFG_STR(NULL, NULL, 0);
 
 	int ignore = 0;		/* ignore until this token, traverse parser w/o error */
+	int skip_depth = 0;	/* nesting of unknown sub-sections being ignored */
 	int num_values = 0;	/* number of values found for a list option */
 	int rc;
 
@@ -1709,11 +1710,11 @@ static int cfg_parse_internal(cfg_t *cfg, int level, int force_state, cfg_opt_t 
 				state = 12; /* Section, ignore all until closing brace */
 			} else if (tok == CFGT_STR) {
 				state = 11; /* No '=' ... must be a titled section */
-			} else if (tok == '}' && force_state == 10) {
-				if (comment)
-					free(comment);
-
-				return STATE_CONTINUE;
+			} else if (tok == '}' && skip_depth > 0) {
+				/* end of an ignored sub-section */
+				skip_depth--;
+				ignore = '}';
+				state = 13;
 			}
 			break;
 
@@ -1725,12 +1726,9 @@ static int cfg_parse_internal(cfg_t *cfg, int level, int force_state, cfg_opt_t 
 			state = 12;
 			break;
 
-		case 12: /* unknown option, recursively ignore entire sub-section */
-			rc = cfg_parse_internal(cfg, level + 1, 10, NULL);
-			if (rc != STATE_CONTINUE)
-				goto error;
-			ignore = '}';
-			state = 13;
+		case 12: /* unknown option, ignore entire sub-section; nesting is counted, not recursed into */
+			skip_depth++;
+			state = 10;
 			break;
 
 		case 13: /* unknown option, consume tokens silently until end of func/list */
@@ -1743,12 +1741,11 @@ static int cfg_parse_internal(cfg_t *cfg, int level, int force_state, cfg_opt_t 
 				break;
 			}
 
-			/* Are we done with recursive ignore of sub-section? */
-			if (force_state == 10) {
-				if (comment)
-					free(comment);
-
-				return STATE_CONTINUE;
+			/* Are we done with an item of an ignored sub-section? */
+			if (skip_depth > 0) {
+				skip_depth--;
+				ignore = '}';
+				break;
 			}
 
 			ignore = 0;
@@ -1768,7 +1765,7 @@ static int cfg_parse_internal(cfg_t *cfg, int level, int force_state, cfg_opt_t 
 			}
 
 			ignore = 0;
-			if (force_state == 10)
+			if (skip_depth > 0)
 				state = 15;
 			else
 				state = 0;
